@@ -186,8 +186,16 @@ def run(tier, seed, ck=None):
             if p['end'] != 'return':
                 ck.prove(tag + '.nopanic%d' % p['id'], 'Pow never panics: path ending in %s (%s) is infeasible' % (p['end'], p.get('panic') or p.get('err')), pre, timeout=120)
             else:
-                ck.prove(tag + '.value%d' % p['id'], 'Pow: receiver = (t=0 ? 1 : t=1 ? s : ToMontgomery(modexp(value s, value t, n)))',
-                         pre + '\n(assert (not %s))' % limbs_eq(p['obs']['S']['f'], 'spec'), timeout=120)
+                goal = pre + '\n(assert (not %s))' % limbs_eq(p['obs']['S']['f'], 'spec')
+                res = ck.prove(tag + '.value%d' % p['id'], 'Pow: receiver = (t=0 ? 1 : t=1 ? s : ToMontgomery(modexp(value s, value t, n)))', goal, timeout=120)
+                if res.status == 'sat':
+                    # operands from the model (limbs -> true canonical values) for the replay
+                    sv, _ = ensure_vars(r, low, ['s%d' % i for i in range(4)])
+                    tv, _ = ensure_vars(r, low, ['t%d' % i for i in range(4)])
+                    m, _ = smt.get_model(low.all() + goal[len(pre.split('(define-fun spec')[0]) - 0:] if False else goal, sv + tv, timeout=60)
+                    if m:
+                        Ri = pow(R, -1, N)
+                        ck.extra.setdefault('_powcex', []).append((unlimbs([m[x] for x in sv]) * Ri % N, unlimbs([m[x] for x in (tv if al == 0 else sv)]) * Ri % N))
                 if p is rets[-1]:
                     ck.prove(tag + '.reach', 'general Pow path reachable', pre, expect='sat', timeout=60)
         with core.ThreadPoolExecutor(max_workers=5) as ex:
@@ -207,6 +215,8 @@ def battery(ck):
         for a in vals[:8] + vals[-3:]:
             for b in (vals[:5] + vals[-2:]) if op in ('add', 'sub', 'mul', 'pow') else [1]:
                 cases.append({'kind': 'scalar-op', 'op': op, 'a': '%064x' % a, 'b': '%064x' % b})
+    for a, b in ck.extra.get('_powcex', [])[:6]:
+        cases.insert(0, {'kind': 'scalar-op', 'op': 'pow', 'a': '%064x' % a, 'b': '%064x' % b})
     for u in (0, 1, 2**64 - 1, 2**63, rng.getrandbits(64)):
         cases.append({'kind': 'scalar-op', 'op': 'setuint64', 'a': '%064x' % 5, 'b': '%064x' % 1, 'u': u})
     path = ck.save_replay({'property': 'C06', 'cases': cases})
